@@ -56,10 +56,12 @@ def run(chk):
         if rng.random() < 0.5:
             P = P[::-1].copy()
         pts = query_points(rng, P, npts)
-        # any size: a third of the scenarios are rescaled exactly (polygon and query points) by a power of two between 2^-30 (1e-9) and 2^8
+        # any size: a third of the scenarios are rescaled exactly (polygon and query points) by a power of two between 2^-25 (3e-8) and 2^8
+        # (below ~4e-9 the vendored sweep line of Polygon.__init__ starts rejecting valid many-vertex polygons: recorded finding
+        # sweepline-large-coordinates, second witness - a constructor matter, not one of containment)
         u = 1.0
         if rng.random() < 0.34:
-            u = 2.0 ** int(rng.integers(-30, 9))
+            u = 2.0 ** int(rng.integers(-25, 9))
             P, pts = P * u, pts * u
             kind += "*2^k"
         mode = rng.choice(["xy3", "xy2", "placed"])
@@ -79,11 +81,12 @@ def run(chk):
             chk.violation("constructor-raised", dict(vertices=Vp.tolist(), error=st))
             continue
         got = np.asarray(poly.is_inside(Qp), bool)
-        # batch vs single
-        k = int(rng.integers(len(Qp)))
-        single = np.asarray(poly.is_inside(Qp[k]), bool)
-        if single.shape != (1,) or single[0] != got[k] or got.shape != (len(Qp),):
-            chk.violation("batch-vs-single", dict(vertices=Vp.tolist(), point=Qp[k].tolist(), batch=bool(got[k]), single=single.tolist()))
+        # batch vs single (judged below, off the boundary only: on the boundary the last bit of the alignment decides, and a batch and a
+        # single point go through different matrix kernels)
+        ks = int(rng.integers(len(Qp)))
+        single = np.asarray(poly.is_inside(Qp[ks]), bool)
+        if single.shape != (1,) or got.shape != (len(Qp),):
+            chk.violation("batch-vs-single", dict(vertices=Vp.tolist(), point=Qp[ks].tolist(), what="result shape", single=single.tolist()))
         # the same points as a nested list and (when integral) as an integer array
         sel = [int(x) for x in rng.integers(len(Qp), size=min(4, len(Qp)))]
         st2, asl = C.excname(lambda: np.asarray(poly.is_inside(Qp[sel].tolist()), bool))
@@ -101,7 +104,7 @@ def run(chk):
         mirror = mode != "placed" and nrm[2] < 0
         Pm, ptm = (P * np.array([-1.0, 1.0]), pts * np.array([-1.0, 1.0])) if mirror else (P, pts)
         cases.append(C.encode_case("winding2", sc=C.flat(ptm), qs=C.flat(Pm)))
-        meta.append(dict(kind=kind, P=P, pts=pts, mode=mode, got=got, Vp=Vp, Qp=Qp, mirror=bool(mirror)))
+        meta.append(dict(kind=kind, P=P, pts=pts, mode=mode, got=got, Vp=Vp, Qp=Qp, mirror=bool(mirror), ks=ks, single=single))
     res = C.run_model(cases)
     nvm, okvm = C.vm_crosscheck(cases[:3], res[:3], "C06", limit=3)
     if not okvm:
@@ -119,6 +122,8 @@ def run(chk):
             if d2 <= (1e-9 * size) ** 2:
                 chk.count("unjudged:boundary")
                 continue
+            if k == m["ks"] and m["single"].shape == (1,) and bool(m["single"][0]) != bool(m["got"][k]):
+                chk.violation("batch-vs-single", dict(vertices=m["Vp"].tolist(), point=np.asarray(m["Qp"][k]).tolist(), batch=bool(m["got"][k]), single=m["single"].tolist()))
             if tsum % 2 != 0:
                 chk.violation("model-odd-turn-sum", dict(vertices=P.tolist(), point=pts[k].tolist()), no_input=True)
             if code != spec:
